@@ -295,6 +295,7 @@ fn judge(run: &Run, sub: &str, case: &Case, results: &[WResult], rec: &mut CaseR
     rec.label_if(kn.multishot, "knob_multishot");
     rec.label_if(kn.cork, "knob_cork");
     rec.count("uring_connections", r.handlers_seen as u64);
+    rec.label_if(r.zc_used, "send_pool_buffer_leased");
     if r.handlers_seen > 0 {
       rec.nontrivial = true;
     }
@@ -355,6 +356,7 @@ pub fn run(run: &mut Run) {
     "equivalence is judged on delivered messages per connection, the set of monitor event kinds, the set of error kinds and what a raw peer observed; counts of timeouts under back-pressure and timing are not compared".into(),
     "a workload whose reference (Tokio) run already fails its accounting is not judged".into(),
     "SQPOLL, the ultra-low-latency polling strategy and more than 64 simultaneous connections are not generated".into(),
+    "in this tree the ZMTP io_uring handler writes data with vectored sends and never leases a send-pool buffer (label send_pool_buffer_leased counts the workloads in which one was leased), so 'send pool buffers are given back' is only observed as the gauge staying at total; the receive ring and chunk gauges are exercised by every workload".into(),
   ];
   let sub = "differential";
   let (cases, max_w) = match run.tier {
@@ -1253,6 +1255,7 @@ pub mod child {
 
   /// Waits until the gauges are at rest (or 3 s), then lists what is not.
   async fn quiescence(fd_baseline: usize) -> (Vec<String>, String, usize, usize, bool) {
+    static LAST_LEASES: std::sync::atomic::AtomicUsize = std::sync::atomic::AtomicUsize::new(0);
     let mut problems = Vec::new();
     let mut g = gauges();
     let mut fds = fd_count();
@@ -1319,7 +1322,7 @@ pub mod child {
     if fds > fd_baseline {
       problems.push(format!("fd: /proc/self/fd grew from {} to {}", fd_baseline, fds));
     }
-    let zc = false;
+    let zc = LAST_LEASES.swap(g.send_pool_leases, std::sync::atomic::Ordering::SeqCst) < g.send_pool_leases;
     (problems, format!("{:?}", g), fds, handlers_seen, zc)
   }
 
